@@ -99,6 +99,48 @@ def _finder(which):
     return f
 
 
+def _orig_frame(d, tr):
+    """(x0, y0, w0, h0) of the original frame inside the current array"""
+    kind, dx, dy, pl, pr = tr
+    if kind == 'transpose':
+        return 0, 0, d.shape[1], d.shape[0]
+    return dx, dy, d.shape[1] - dx - pr, d.shape[0] - dy - pr
+
+
+def _finder_excl(which):
+    """star finders with exclude_border=True and non-square kernels: a star whose kernel box lies inside the original frame is reported in
+    every embedding; extra narrow stars are planted 3-6 px from the edges of the original frame"""
+    def f(d, e, m, pos, tr):
+        from photutils.detection import DAOStarFinder, StarFinder
+        x0, y0, w0, h0 = _orig_frame(d, tr)
+        d = d.copy()
+        yy, xx = np.mgrid[:d.shape[0], :d.shape[1]]
+        for (sx, sy) in ((14, 3), (33, 4), (5, 30), (3, 17), (w0 - 4, 24), (w0 - 6, 9), (27, h0 - 4), (41, h0 - 6)):
+            d += 90.0 * np.exp(-0.5 * (((xx - x0 - sx) / 1.1) ** 2 + ((yy - y0 - sy) / 1.1) ** 2))
+        if which == 'dao_wide':
+            fd = DAOStarFinder(8.0, 8.0, ratio=0.5, theta=0.0, exclude_border=True, sharplo=-10, sharphi=10, roundlo=-10, roundhi=10)
+            ry, rx = fd.kernel.yradius, fd.kernel.xradius
+        elif which == 'dao_tall':
+            fd = DAOStarFinder(8.0, 8.0, ratio=0.5, theta=90.0, exclude_border=True, sharplo=-10, sharphi=10, roundlo=-10, roundhi=10)
+            ry, rx = fd.kernel.yradius, fd.kernel.xradius
+        else:
+            ky, kx = np.mgrid[:5, :11]
+            fd = StarFinder(8.0, np.exp(-0.5 * (((kx - 5) / 2.5) ** 2 + ((ky - 2) / 1.2) ** 2)), exclude_border=True)
+            ry, rx = 2, 5
+        t = fd(d, mask=m)
+        xc, yc = np.asarray(t['xcentroid']), np.asarray(t['ycentroid'])
+        # rows whose kernel box (around the nearest pixel) lies inside the original frame, with a one-pixel margin against centroid rounding
+        keep = (xc - x0 >= rx + 1) & (xc - x0 <= w0 - 2 - rx) & (yc - y0 >= ry + 1) & (yc - y0 <= h0 - 2 - ry)
+        xc, yc = xc[keep], yc[keep]
+        o = np.lexsort((np.round(xc, 3), np.round(yc, 3)))
+        cols = [col('xcentroid', 'x', xc[o], tol=3), col('ycentroid', 'y', yc[o], tol=3)]
+        for n in ('flux', 'peak', 'max_value'):
+            if n in t.colnames:
+                cols.append(col(n, 'free', np.asarray(t[n])[keep][o], tol=4))
+        return cols, {}
+    return f
+
+
 def api_segmentation(d, e, m, pos, tr):
     from photutils.segmentation import SourceCatalog, deblend_sources, detect_sources
     segm = detect_sources(d, 6.0, 3, mask=m)
@@ -127,6 +169,22 @@ def api_segmentation(d, e, m, pos, tr):
     elong = np.asarray(cat.elongation.value if hasattr(cat.elongation, 'value') else cat.elongation)[o]
     ori = np.where(elong > 1.05, ori, np.nan)
     cols.append(col('orientation', 'angle', ori))
+    # a second catalog with a local-background annulus around every source (compared for the sources whose annulus lies inside
+    # the original frame)
+    cat2 = SourceCatalog(d, deb, error=e, mask=m, localbkg_width=4)
+    x0, y0, w0, h0 = _orig_frame(d, tr)
+    inside = []
+    for ap in cat2.local_background_aperture:
+        bb = ap.bbox if ap is not None else None
+        inside.append(bb is not None and bb.ixmin >= x0 + 1 and bb.iymin >= y0 + 1 and bb.ixmax <= x0 + w0 - 1 and bb.iymax <= y0 + h0 - 1)
+    inside = np.array(inside)[o]
+    for n in ('local_background', 'segment_flux', 'kron_flux'):
+        v = np.asarray(getattr(getattr(cat2, n), 'value', getattr(cat2, n)), dtype=float)[o]
+        cols.append(col('lb_' + n, 'free', np.where(inside, v, np.nan), tol=6))
+    lw = np.array([(ap.w_in, ap.h_in, ap.w_out, ap.h_out) if ap is not None else (np.nan,) * 4 for ap in cat2.local_background_aperture], dtype=float)[o]
+    tp = tr[0] == 'transpose'
+    cols.append(col('lb_annulus_w_in', 'free', lw[:, 1 if tp else 0])); cols.append(col('lb_annulus_h_in', 'free', lw[:, 0 if tp else 1]))
+    cols.append(col('lb_annulus_w_out', 'free', lw[:, 3 if tp else 2])); cols.append(col('lb_annulus_h_out', 'free', lw[:, 2 if tp else 3]))
     arrays = {'detect_support': (segm.data > 0).astype(int), 'deblend_support': (deb.data > 0).astype(int)}
     if tr[0] != 'transpose':
         arrays.update(detect_labels=segm.data, deblend_labels=deb.data)
@@ -184,6 +242,8 @@ def api_model_image(d, e, m, pos, tr):
 
 APIS = {'aperture_photometry': (api_aperture_photometry, True), 'aperture_stats': (api_aperture_stats, True), 'find_peaks': (api_find_peaks, True),
         'daofinder': (_finder('dao'), False), 'iraffinder': (_finder('iraf'), False), 'starfinder': (_finder('star'), False),
+        'daofinder_excl_wide': (_finder_excl('dao_wide'), False), 'daofinder_excl_tall': (_finder_excl('dao_tall'), False),
+        'starfinder_excl_rect': (_finder_excl('star_rect'), False),
         'segmentation_catalog': (api_segmentation, True), 'profiles': (api_profiles, True), 'centroids': (api_centroids, True), 'model_image': (api_model_image, True)}
 
 
